@@ -40,7 +40,8 @@ def report_mismatches(ctx, rj, beh_file):
         got = m["got"].split(",")[0] if m["got"].startswith("addr,") else m["got"]
         sig = {"kind": m["kind"], "via": via(m["kind"]), "expected": m["expected"], "got": got}
         if m["kind"] in ("hash-change", "hash-identity", "sender", "sender-scope"):
-            sig["detail"] = (m["detail"].split(" alt=")[0] if m["kind"] == "hash-change" else "")
+            sig["detail"] = (m["detail"].split(" alt=")[0] if m["kind"] == "hash-change" else
+                             m["detail"].split(":")[0] if m["kind"] == "hash-identity" else "")
         vlib.report(ctx, sig, {"mode": "replay", "behaviour": m["beh"], "instseed": m["seed"], "step": m["step"],
                                "expected": m["expected"], "got": m["got"], "detail": m["detail"]})
 
@@ -49,15 +50,16 @@ def run(ctx):
     quick = ctx.quick
     drv = build_driver(ctx, "sigdrv")
     cov = {}
-    # 1. design level: the case table satisfies the property invariants on the bounded graph (exhaustive)
-    mc_cfg = "MCSig_small.cfg" if quick else "MCSig_big.cfg"
-    r = vlib.tlc_must_pass(ctx, "MCSig", mc_cfg, workers=16, timeout=3000, seed=ctx.seed)
-    cov.update(states=r.distinct, transitions=r.generated, tlc_depth=r.depth, tlc_cfg=mc_cfg)
-    vlib.log("TLC %s: %d distinct / %d generated, depth %d, %.0fs" % (mc_cfg, r.distinct, r.generated, r.depth, r.wall))
-
-    # 2. spec -> code: every transition of the bounded graph as one behaviour, each instantiated `inst` times
+    # 1. design level: the case table satisfies the property invariants on the bounded graph (exhaustive);
+    # 2. spec -> code: the same exhaustive run prints every transition of the graph as one behaviour
     emit_cfg = "MCSig_emit.cfg" if quick else "MCSig_emit5.cfg"
     er = vlib.tlc_must_pass(ctx, "MCSig", emit_cfg, workers=16, timeout=3000, seed=ctx.seed)
+    cov.update(states=er.distinct, transitions=er.generated, tlc_depth=er.depth, tlc_cfg=emit_cfg)
+    vlib.log("TLC %s: %d distinct / %d generated, depth %d, %.0fs" % (emit_cfg, er.distinct, er.generated, er.depth, er.wall))
+    if not quick:
+        r = vlib.tlc_must_pass(ctx, "MCSig", "MCSig_big.cfg", workers=16, timeout=3000, seed=ctx.seed)
+        cov.update(deep_states=r.distinct, deep_transitions=r.generated, deep_cfg="MCSig_big.cfg")
+        vlib.log("TLC MCSig_big.cfg: %d distinct / %d generated, depth %d, %.0fs" % (r.distinct, r.generated, r.depth, r.wall))
     beh = ctx.work / "behaviours.ndjson"
     with open(beh, "w") as f:
         for s in er.printed:
@@ -66,7 +68,7 @@ def run(ctx):
     if nbeh < 20000:
         raise Broken("TLC emitted only %d behaviours" % nbeh)
     vlib.log("TLC %s emitted %d behaviours (%.0fs)" % (emit_cfg, nbeh, er.wall))
-    inst = 1 if quick else 3
+    inst = 1 if quick else 2
     res = ctx.work / "replay.json"
     p = vlib.run([drv, "replay", "-in", beh, "-out", res, "-seed", ctx.seed, "-inst", inst, "-pool=true"], timeout=6000, check=True)
     rj = json.loads(res.read_text())
@@ -79,7 +81,7 @@ def run(ctx):
     vlib.log("replay: %d evaluations, %d distinct verdict classes, %.0fs" % (rj["evaluations"], rj["distinct_classes"], p.wall))
 
     # 3. the bit-flip edges with EVERY bit position
-    nsweep = 12 if quick else 600
+    nsweep = 12 if quick else 400
     sres = ctx.work / "sweep.json"
     p = vlib.run([drv, "sweep", "-seed", ctx.seed, "-n", nsweep, "-out", sres], timeout=6000, check=True)
     sj = json.loads(sres.read_text())
@@ -104,7 +106,6 @@ def run(ctx):
         behaviours_replayed=nbeh, instantiations_per_behaviour=inst, exhaustive=True,
         replay_evaluations=rj["evaluations"], sweep_evaluations=sj["evaluations"], sweep_transactions=nsweep,
         ops_replayed=rj["ops"], specified_outcomes_exercised=rj["outcomes"], emit_cfg=emit_cfg,
-        emit_states=er.distinct, emit_transitions=er.generated,
         rule="TLC enumerates EVERY transition of the bounded Sig.tla graph (%s) with the outcome class the spec defines; each is "
              "instantiated %d time(s) with seeded random keys, chain ids, field values (random, structural or single-bit-flipped "
              "alternatives), malformed-signature variants and construction paths (constructor / wire round trip) on the real code; "
